@@ -560,10 +560,20 @@ func readAnsiInputs(ctx context.Context, msgs chan<- Msg, input io.Reader) error
 	var buf [256]byte
 
 	var leftOverFromPrevIteration []byte
+	var pendingErr error
 loop:
 	for {
 		// Read and block.
-		numBytes, err := input.Read(buf[:])
+		var numBytes int
+		err := pendingErr
+		if err == nil {
+			numBytes, err = input.Read(buf[:])
+		}
+		if err != nil && numBytes > 0 {
+			// A Read may deliver its last bytes together with an error. The
+			// bytes come first; the error is dealt with on the next turn.
+			pendingErr, err = err, nil
+		}
 		if err != nil {
 			if errors.Is(err, io.EOF) {
 				// Nothing more will arrive: decode what was held back while
@@ -595,7 +605,7 @@ loop:
 		// be more data in the OS buffer ready to be read in, to complete
 		// the last message in the input. In that case, we will retry with
 		// the left over data in the next iteration.
-		canHaveMoreData := numBytes == len(buf)
+		canHaveMoreData := numBytes == len(buf) && pendingErr == nil
 
 		var i, w int
 		for i, w = 0, 0; i < len(b); i += w {
